@@ -254,12 +254,14 @@ def run_fn_enum(desc):
     out.exhaustive = True
     s, S = desc['shard'], desc['of']
     idx = 0
-    for seq in A.enum_upto(desc['budget'], ATOMS, kinds='?*+@', max_depth=1):
+    # (in fnmatch mode `/` is not special for wildcards, but under Windows rules a written `/` still stands for either separator -
+    # at top level and inside groups alike)
+    for seq in A.enum_upto(desc['budget'], ATOMS + (A.lit('/'),), kinds='?*+@', max_depth=1):
         idx += 1
         if idx % S != s:
             continue
         text = A.render(seq)
-        names = name_pool([seq], 'fn', 3, with_bslash=idx % 2 == 0)
+        names = name_pool([seq], 'fn', 3, with_bslash=idx % 2 == 0 or '/' in text)
         sw = A.render(swap_lits(seq))
         for j in range(16):
             check_relations('fn', seq, text, FLAGSETS[j], names, out, 'fn-enum', as_bytes=(idx + j) % 5 == 0, swapped_text=sw)
